@@ -67,6 +67,10 @@ func c55ReadRecord(r io.Reader) (c55Record, error) {
 		return c55Record{}, err
 	}
 	rec := c55Record{Version: h[0], Type: h[1], ID: binary.BigEndian.Uint16(h[2:4]), Padding: int(h[6])}
+	if rec.Version != 1 || rec.Type == 0 || rec.Type > 11 {
+		// not a record header of FastCGI 1.0: the stream is out of step
+		return rec, fmt.Errorf("%w: version %d type %d", errC55BadHeader, rec.Version, rec.Type)
+	}
 	cl := int(binary.BigEndian.Uint16(h[4:6]))
 	buf := make([]byte, cl+rec.Padding)
 	if _, err := io.ReadFull(r, buf); err != nil {
@@ -85,6 +89,8 @@ func c55WriteRecord(w io.Writer, typ byte, id uint16, content []byte, pad int) e
 	_, err := w.Write(buf)
 	return err
 }
+
+var errC55BadHeader = errors.New("bad record header")
 
 type c55Pair struct{ K, V string }
 
@@ -192,11 +198,12 @@ func (s *c55Responder) loop() {
 func (s *c55Responder) handle(ex *c55Exchange, conn net.Conn) {
 	defer close(ex.done)
 	defer conn.Close()
-	conn.SetDeadline(time.Now().Add(90 * time.Second))
 	paramsOpen, stdinOpen := true, true
 	var recs []c55Record
 	var rerr error
 	for paramsOpen || stdinOpen {
+		// idle watchdog: hitting it is inconclusive, never a violation
+		conn.SetDeadline(time.Now().Add(30 * time.Second))
 		r, err := c55ReadRecord(conn)
 		if err != nil {
 			rerr = err
@@ -223,6 +230,7 @@ func (s *c55Responder) handle(ex *c55Exchange, conn net.Conn) {
 	if len(recs) > 0 {
 		id = recs[0].ID
 	}
+	conn.SetDeadline(time.Now().Add(90 * time.Second))
 	for _, o := range ex.script {
 		if err := c55WriteRecord(conn, o.Type, id, o.Content, o.Pad); err != nil {
 			return
@@ -760,6 +768,11 @@ func c55Check(tb ev.TB, rec *ev.Rec, c *c55Case) {
 	ex.mu.Lock()
 	recs, rerr := ex.records, ex.readErr
 	ex.mu.Unlock()
+	var nerr net.Error
+	if rerr != nil && errors.As(rerr, &nerr) && nerr.Timeout() {
+		rec.Excluded("watchdog")
+		return
+	}
 	if rerr != nil {
 		if !c55Fail(rec, tb, "request-undecodable", w, "responder could not read a complete request: %v (after %d records); client error: %v", rerr, len(recs), o.err) {
 			rec.Excluded("known-finding:request-undecodable")
